@@ -724,7 +724,11 @@ fn acyclic(m: &Model, ctx: &mut Ctx) {
         let mut sv = BTreeMap::new();
         sv.insert("tlds".to_string(), Val::Opaque("tlds".into()));
         env.insert("self".into(), Val::Ctor("Validator".into(), vec![], sv));
-        match ev.eval_fn_body(&f.block, &mut env) {
+        // the scenarios have at most five definitions: a loop over them that runs 200 rounds does not end
+        crate::eval::WHILE_BOUND.with(|b| b.set(200));
+        let evaluated = ev.eval_fn_body(&f.block, &mut env);
+        crate::eval::WHILE_BOUND.with(|b| b.set(10_000));
+        match evaluated {
             Ok(Val::List(l)) => {
                 let mut got: Vec<String> = l.iter().filter_map(|e| match e {
                     Val::Ctor(_, _, f) => match f.get("pdu") { Some(Val::Ctor(s, p, _)) if s == "Some" => match p.first() { Some(Val::Str(n)) => Some(n.clone()), _ => None }, _ => None },
@@ -739,6 +743,8 @@ fn acyclic(m: &Model, ctx: &mut Ctx) {
                 }
             }
             Ok(o) => ctx.fail_closed("C08.acyclic", &format!("[{}]: {}", what, o.show().chars().take(160).collect::<String>())),
+            Err(e) if e.contains("did not terminate") => ctx.violate("C08.acyclic", &format!("removal-hangs:{}", what.replace(' ', "-")), &f.file, f.line,
+                &format!("remove_circular_type_references on the scenario `{}` is still looping after 200 rounds over at most five definitions: the chain of references is followed without remembering where it has been, so this input hangs the compiler", what)),
             Err(e) => ctx.fail_closed("C08.acyclic", &format!("[{}]: {}", what, e)),
         }
     }
